@@ -10,8 +10,17 @@
 
 using sim::SimMutex;
 
+// lock()/lock_shared() of the mutex may fail by throwing (a legal path for a user-supplied mutex type): the guard must
+// then not claim ownership. The harness arms the throw for the next acquisition only.
+extern "C" int simh_lock_should_throw();
+struct ThrowingMutex : SimMutex {
+	void lock() { if (simh_lock_should_throw()) throw 1; SimMutex::lock(); }
+	void lock_shared() { if (simh_lock_should_throw()) throw 1; SimMutex::lock_shared(); }
+};
+
 template <class G>
-static int guard_op(int op, void *a, void *b, SimMutex *m) {
+static int guard_op(int op, void *a, void *b, SimMutex *m0) {
+	ThrowingMutex *m = static_cast<ThrowingMutex *>(m0);
 	G *ga = static_cast<G *>(a), *gb = static_cast<G *>(b);
 	switch (op) {
 	case GO_CTOR_LOCK: new (a) G(*m); return 0;
@@ -52,16 +61,17 @@ void sut_guarded(int type, void *l, void (*body)(void *), void *arg) {
 }
 
 size_t sut_guard_size(int gt) {
-	switch (gt) { case GT_UNIQUE: return sizeof(frg::unique_lock<SimMutex>); case GT_SHARED: return sizeof(frg::shared_lock<SimMutex>); default: return sizeof(frg::lock_guard<SimMutex>); }
+	switch (gt) { case GT_UNIQUE: return sizeof(frg::unique_lock<ThrowingMutex>); case GT_SHARED: return sizeof(frg::shared_lock<ThrowingMutex>); default: return sizeof(frg::lock_guard<ThrowingMutex>); }
 }
 
-int sut_guard_op(int gt, int op, void *a, void *b, SimMutex *m) {
-	if (gt == GT_UNIQUE) return guard_op<frg::unique_lock<SimMutex>>(op, a, b, m);
-	if (gt == GT_SHARED) return guard_op<frg::shared_lock<SimMutex>>(op, a, b, m);
+static int sut_guard_op_inner(int gt, int op, void *a, void *b, SimMutex *m0) {
+	ThrowingMutex *m = static_cast<ThrowingMutex *>(m0);
+	if (gt == GT_UNIQUE) return guard_op<frg::unique_lock<ThrowingMutex>>(op, a, b, m);
+	if (gt == GT_SHARED) return guard_op<frg::shared_lock<ThrowingMutex>>(op, a, b, m);
 	// QS lock_guard: not movable, no tags
-	auto g = static_cast<frg::lock_guard<SimMutex> *>(a);
+	auto g = static_cast<frg::lock_guard<ThrowingMutex> *>(a);
 	switch (op) {
-	case GO_CTOR_LOCK: new (a) frg::lock_guard<SimMutex>(*m); return 0;
+	case GO_CTOR_LOCK: new (a) frg::lock_guard<ThrowingMutex>(*m); return 0;
 	case GO_LOCK: g->lock(); return 0;
 	case GO_UNLOCK: g->unlock(); return 0;
 	case GO_DESTROY: g->~lock_guard(); return 0;
@@ -69,6 +79,10 @@ int sut_guard_op(int gt, int op, void *a, void *b, SimMutex *m) {
 	return -1;
 }
 
-void sut_mutex_construct(void *mem) { new (mem) SimMutex(); }
+int sut_guard_op(int gt, int op, void *a, void *b, SimMutex *m) {
+	try { return sut_guard_op_inner(gt, op, a, b, m); } catch (int) { return -77; } // the mutex's lock() threw
+}
+
+void sut_mutex_construct(void *mem) { new (mem) ThrowingMutex(); }
 
 } // extern "C"
